@@ -248,6 +248,10 @@ let model (input : string) : string =
     let total = llen stream in
     String.concat ";" (Stdlib.List.map (fun r -> Printf.sprintf "%s@%d" (verdict r) (total - llen (WireFrame.frame_rest r)))
                          (WireFrame.read_stream (nat_of_int 16) pver net ebs stream))
+  | "T" :: _ ->
+    (* in the model the stream is a list of bytes: how many of them one Read call hands out does not exist, so
+       the two decodings the harness compares are the same fold of read_message *)
+    "same"
   | _ -> "BAD-INPUT"
 
 (* ---------- the spec oracle on the implementation's observable ---------- *)
@@ -357,6 +361,10 @@ let spec (input : string) (obs : string) : string =
           else Printf.sprintf "FAIL stream-out-of-step call %d on the stream: want %s got %s" (i + 1)
               (if String.length want > 120 then String.sub want 0 120 else want) (if String.length r > 120 then String.sub r 0 120 else r) in
       go 0 0 frames res
+    | "T" :: _ ->
+      if obs = "same" then "OK"
+      else "FAIL short-reads-change-the-decoding a reader that returns short reads must decode like an in-memory reader: " ^
+           (if String.length obs > 400 then String.sub obs 0 400 else obs)
     | _ -> "FAIL malformed-input"
 
 (* main: the cases are independent, so they are spread over worker processes (each a re-exec of this
